@@ -155,6 +155,74 @@ Theorem state_dict_round_trip_is_identity :
 Proof. exact state_dict_round_trip. Qed.
 Print Assumptions state_dict_round_trip_is_identity.
 
+(* 7. state_dict / load_state_dict on the OBJECT STORE (Model/CatToNum.v, "object store"): state_dict() hands out the
+      LIVE attribute dict of the object, load_state_dict updates the destination's dict with it.
+      7a. SELF round trip t.load_state_dict(t.state_dict()): source and destination are the same dict; afterwards
+          every object of the heap -- t included -- has exactly the attributes it had. *)
+Theorem self_round_trip_is_identity :
+  forall h o d,
+    hget o h = Some d -> NoDup (map fst d) ->
+    exists h', st_state_dict h o false = Some (RLive o) /\ st_load h o (RLive o) = Some h' /\
+               forall o', hget o' h' = hget o' h.
+Proof. exact self_round_trip_identity. Qed.
+Print Assumptions self_round_trip_is_identity.
+
+(*    7b. Round trip into another object (a fresh CatToNumTransform() or any other instance), through the live dict or a
+          detached copy (deepcopy, torch.save/load): the destination reads back as the very transform value of the
+          source; every other object, the source included, is untouched. *)
+Theorem round_trip_into_another_object :
+  forall h src dst t dd (copy : bool),
+    hget src h = Some (to_dict t) -> hget dst h = Some dd -> src <> dst ->
+    dget "_is_fitted" dd <> None -> dget "_transformed_stats" dd <> None ->
+    (t_state t = None -> dget "fit_attrs" dd = None) ->
+    exists sd h', st_state_dict h src copy = Some sd /\ st_load h dst sd = Some h' /\
+                  (exists d', hget dst h' = Some d' /\ of_dict d' = Some t) /\
+                  forall o', o' <> dst -> hget o' h' = hget o' h.
+Proof. exact round_trip_into_other. Qed.
+Print Assumptions round_trip_into_another_object.
+
+(*    7c. dst.update(src) in general: the source's attributes win, all other attributes of the destination stay. *)
+Theorem dict_update_semantics :
+  forall s, NoDup (map fst s) ->
+    forall d k, dget k (dupdate d s) = match dget k s with Some v => Some v | None => dget k d end.
+Proof. exact dget_dupdate. Qed.
+Print Assumptions dict_update_semantics.
+
+(*    7d. "clear() before update" (seeded change C17_10) is REFUTED for source = destination: the witness transform
+          survives the library's load and is wiped (every later use raises) by the variant. *)
+Theorem clear_before_update_is_refuted :
+  (exists h', st_load w_heap0 0 (RLive 0%nat) = Some h' /\ (d <- hget 0 h' ;; of_dict d) = Some w_obj) /\
+  (exists h', st_load_clear w_heap0 0 (RLive 0%nat) = Some h' /\ (d <- hget 0 h' ;; of_dict d) = None).
+Proof. exact clear_before_update_refuted. Qed.
+Print Assumptions clear_before_update_is_refuted.
+
+(* 8. The prior and the task rule of _fit.
+      8a. Floating-point labels: regression / binary, whatever their values (dtype-based rule; the seeded change
+          C17_12 treated whole-valued floats as classes); the prior is the mean over the LABELLED rows only. *)
+Theorem float_labels_give_one_prior_the_mean_of_labelled_rows :
+  forall ys, labelled ys <> [] -> target_prior (YFloat ys) = Some (2%nat, [qmean (labelled ys)]).
+Proof. exact prior_float_is_mean_of_labelled. Qed.
+Print Assumptions float_labels_give_one_prior_the_mean_of_labelled_rows.
+
+Theorem float_labels_are_never_a_multiclass_problem :
+  forall ys k prior, target_prior (YFloat ys) = Some (k, prior) -> k = 2%nat /\ length prior = 1%nat.
+Proof. exact float_labels_are_never_multiclass. Qed.
+Print Assumptions float_labels_are_never_a_multiclass_problem.
+
+(*    8b. Integer labels: multiclass iff the largest label exceeds 1, and then num_classes = max + 1. *)
+Theorem integer_labels_are_multiclass_iff_max_exceeds_one :
+  forall ys m k prior,
+    zmax ys = Some m -> target_prior (YInt ys) = Some (k, prior) ->
+    ((1 < m)%Z -> k = (Z.to_nat m + 1)%nat) /\ ((m <= 1)%Z -> k = 2%nat).
+Proof. exact int_labels_multiclass_iff. Qed.
+Print Assumptions integer_labels_are_multiclass_iff_max_exceeds_one.
+
+(*    8c. "nansum / number of ALL rows" (seeded change C17_11) is REFUTED: labels [1, NaN]. *)
+Theorem prior_over_all_rows_is_refuted :
+  exists ys, labelled ys <> [] /\ ~ (qsum (labelled ys) / qnat (length ys) == qmean (labelled ys)).
+Proof. exact prior_over_all_rows_refuted. Qed.
+Print Assumptions prior_over_all_rows_is_refuted.
+
 (* ---------------------------------------------------------------------------------------------------------
    The hypotheses are satisfiable (vm_compute on concrete frames): a 3-class fit on 4 rows, one numerical and two
    categorical columns with missing entries; a 2-row frame WITHOUT labels is transformed to the documented frame. *)
@@ -208,4 +276,17 @@ Example name_clash_example :
   fit fresh (mkframe (Some (mkblock ["a_0"%string] [[Some 1; Some 2]]))
                      (Some (mkblock ["a"%string] [[0; 1]%Z])) (Some (YInt [0; 1]%Z)))
             [("a_0"%string, []); ("a"%string, [1; 1]%Z)] = None.
+Proof. vm_compute. reflexivity. Qed.
+
+(* two objects, fitted state saved LIVE from object 0, a self round trip (twice), a load into the same object and a
+   round trip into a fresh instance: all calls keep returning the documented frame (store-level runner) *)
+Example store_history_example :
+  store_history_agrees 0
+    [MFit 0 ex_train ex_stats; MSave 0 false; MRound 0 RtSelf2; MCall 0 ex_tf; MLoad 0 true; MRound 0 (RtFresh false);
+     MCall 1 ex_tf; MKeys 0]
+    [ODone; ODone; ODone;
+     OFrame ["n0"; "c0_0"; "c0_1"; "a_0"; "a_1"]%string
+            [[None; Some 3]; [Some (1#4); Some (9#20)]; [Some (3#10); Some (1#2)];
+             [Some (9#20); Some (1#20)]; [Some (1#2); Some (1#10)]] false;
+     ODone; ODone; OErr; OKeys ["n0"; "c0_0"; "c0_1"; "a_0"; "a_1"]%string] = true.
 Proof. vm_compute. reflexivity. Qed.
